@@ -103,6 +103,36 @@ theorem fold_mean_closed (op : Reduction) (ign : Bool) (ms : List Member) (hne :
     rw [← this]
     grind
 
+/-- **Nothing contributes**: a block all of whose members are left out (all masked, or all NaN
+under a nan-operation — a cube that is NaN throughout included) has the empty combination, 0,
+for sums and means alike. -/
+theorem fold_none_contributing (op : Reduction) (ign : Bool) (ms : List Member) (hne : ms ≠ [])
+    (hall : ∀ m ∈ ms, excluded op ign m = true) :
+    propagateAdd op ign ms = some 0 := by
+  have hc : contributing op ign ms = [] := by
+    simp only [contributing, List.filter_eq_nil_iff]
+    intro m hm; simp [hall m hm]
+  by_cases hop : isMeanOp op = true
+  · cases ms with
+    | nil => exact absurd rfl hne
+    | cons m0 rest =>
+      have hn : ((m0 :: rest).filter fun m => !excluded op ign m).length = 0 := by
+        have := hc; simp only [contributing] at this; rw [this]; rfl
+      simp only [propagateAdd, hop, if_true, hn]
+      congr 1
+      rw [foldl_add_init]
+      have := sum_contributing op ign (m0 :: rest)
+      simp only [List.foldl_cons] at this
+      rw [foldl_add_init] at this
+      rw [hc] at this
+      simp only [List.map_nil, List.foldl_nil] at this
+      have h0 : (if excluded op ign m0 = true then (0 : Rat) else m0.variance)
+          + List.foldl (fun acc m => acc + if excluded op ign m = true then 0 else m.variance) 0 rest = 0 := by
+        grind
+      rw [h0, Rat.div_def, Rat.zero_mul]
+  · have hop' : isMeanOp op = false := by simpa using hop
+    rw [fold_add_closed op ign ms hne hop', hc]; rfl
+
 /-- **Who contributes**: a member is left out iff it is masked and the operation honours the
 mask, or its data is NaN and the operation is one of the nan-operations. -/
 theorem contributing_spec (op : Reduction) (ign : Bool) (m : Member) :
